@@ -59,6 +59,7 @@ inductive Out
   | item (v : Nat)
   | err (v : Nat)
   | win (hOff hLen tOff tLen : Nat) (vals : List Nat)
+  | vals (vs : List Nat)      -- values copied out (no addresses observable)
   | panic
   deriving DecidableEq, Repr, Inhabited
 
@@ -363,13 +364,13 @@ def step (s : St) : Op → St × Out
   | .copySlice n =>
       let (s1, o) := grantWindow s .C n
       match o with
-      | .none => (s1, .none)
-      | o => (advanceGlobal s1 .C n, o)
+      | .win _ _ _ _ vs => (advanceGlobal s1 .C n, .vals vs)
+      | _ => (s1, .none)
   | .cloneSlice n =>
       let (s1, o) := grantWindow s .C n
       match o with
-      | .none => (s1, .none)
-      | o => (advanceGlobal s1 .C n, o)
+      | .win _ _ _ _ vs => (advanceGlobal (vs.foldl readGuard s1) .C n, .vals vs)
+      | _ => (s1, .none)
   | .detach r => (s.setIt r { s.it r with det := true }, .ok)
   | .attach r =>
       let s1 := applyGen s r Gen.detSync.index' Gen.detSync.cached' Gen.detSync.pub' 0
